@@ -1,6 +1,7 @@
 package props
 
 import (
+	"context"
 	"errors"
 	"fmt"
 	"net"
@@ -143,8 +144,19 @@ func runC15(src sim.Source, o Opts) *Result {
 	// the request starts differently in each case (httputil.DumpRequest omits the Host line for the last two)
 	reqForm := sim.Pick(src, "reqform", []string{"origin", "origin", "absolute", "nohost"})
 	res.inc("request_form_" + reqForm)
+	ctxDone := src.Intn("ctxdone", 4) == 3
+	if ctxDone {
+		res.inc("request_context_already_done")
+	}
 	mkReq := func(method, p string, log *world.ReqLog) *http.Request {
 		req := world.NewRequest(method, "sim.invalid", p, "", "q=1", log)
+		if ctxDone {
+			// the request's context is already done (a timeout middleware whose deferred cancel ran while the panic
+			// unwound, or a caller that gave up): the client still gets its answer
+			ctx, cancel := context.WithCancel(req.Context())
+			cancel()
+			req = req.WithContext(ctx)
+		}
 		switch reqForm {
 		case "absolute":
 			req.RequestURI = "http://sim.invalid" + p + "?q=1"
@@ -165,6 +177,7 @@ func runC15(src sim.Source, o Opts) *Result {
 	}
 	res.Case["secret_header_names"] = hdesc
 	res.Case["request_form"] = reqForm
+	res.Case["request_context_done"] = ctxDone
 	res.Case["routes"] = set.Fingerprint()
 	res.Case["request"] = "GET " + path
 
@@ -501,7 +514,7 @@ func runC15(src sim.Source, o Opts) *Result {
 		}
 	}
 	res.Nontrivial = true
-	res.CaseKey = hashStrings(cfg.String(), set.Fingerprint(), fmt.Sprint(hdesc), prog.String(), path, reqForm)
+	res.CaseKey = hashStrings(cfg.String(), set.Fingerprint(), fmt.Sprint(hdesc), prog.String(), path, reqForm, fmt.Sprint(ctxDone))
 	res.Hash = hashStrings(fmt.Sprint(res.Checks), set.Fingerprint(), fmt.Sprint(hdesc), prog.String())
 	return res
 }
